@@ -278,3 +278,233 @@ Proof.
   destruct pth; try (apply parser_ok_sel_of, parser_ok_tuple; discriminate).
   apply parser_ok_sel_dict_some.
 Qed.
+
+(* ---------- __Pyx_ParseKeywordDict: the extraction loop with its counting early exit ---------- *)
+Definition hit {V} (kws : list (key * V)) (n : nat) : bool :=
+  match dict_get n kws with Some _ => true | None => false end.
+Definition cnt {V} (kws : list (key * V)) (ns : list nat) : nat := length (filter (hit kws) ns).
+
+Lemma NoDup_filter : forall A (f : A -> bool) l, NoDup l -> NoDup (filter f l).
+Proof.
+  intros A f l; induction l as [|x r IH]; intros ND; [constructor|]. inversion ND; subst. cbn [filter].
+  destruct (f x); [constructor; [rewrite filter_In; tauto|auto]|auto].
+Qed.
+
+Lemma hit_name : forall V (kws : list (key * V)) n, hit kws n = true -> In n (map (fun kv => k_name (fst kv)) kws).
+Proof.
+  intros V kws n H. unfold hit in H. destruct (dict_get n kws) as [v|] eqn:G; [|discriminate].
+  destruct (dict_get_Some_In _ _ _ _ G) as [kv [I E]]. apply key_eq_name in E as [E _].
+  apply in_map_iff. exists kv. split; assumption.
+Qed.
+
+(* pigeonhole: distinct names hit by keys are at most as many as the keys *)
+Lemma cnt_le : forall V (kws : list (key * V)) ns, NoDup ns -> cnt kws ns <= length kws.
+Proof.
+  intros V kws ns ND. unfold cnt. rewrite <- (map_length (fun kv => k_name (fst kv)) kws).
+  apply NoDup_incl_length; [apply NoDup_filter; exact ND|].
+  intros n I. apply filter_In in I as [_ H]. apply hit_name. exact H.
+Qed.
+
+Lemma cnt_zero_miss : forall V (kws : list (key * V)) ns n, cnt kws ns = 0 -> In n ns -> dict_get n kws = None.
+Proof.
+  intros V kws ns n C I. unfold cnt in C. apply length_zero_iff_nil in C.
+  destruct (dict_get n kws) eqn:G; [|reflexivity]. exfalso.
+  assert (X : In n (filter (hit kws) ns)) by (apply filter_In; split; [exact I|unfold hit; rewrite G; reflexivity]).
+  rewrite C in X. exact X.
+Qed.
+
+Lemma dict_extract_spec : forall V (kws : list (key * V)) nkw ns idx off e (values : list (option V)),
+  NoDup ns -> e + cnt kws ns <= nkw ->
+  let '(values', e') := dict_extract kws nkw ns idx off e values in
+  e' = e + cnt kws ns /\ length values' = length values /\
+  (forall a, nth a values' None =
+     if (off + idx <=? a) && (a <? off + idx + length ns) && (a <? length values)
+     then match dict_get (nth (a - off - idx) ns 0) kws with Some v => Some v | None => nth a values None end
+     else nth a values None).
+Proof.
+  intros V kws nkw ns; induction ns as [|n ns IH]; intros idx off e values ND B.
+  - cbn [dict_extract]. unfold cnt. cbn [filter length]. split; [lia|]. split; [reflexivity|].
+    intros a. rewrite Nat.add_0_r.
+    replace (a <? off + idx) with (negb (off + idx <=? a))
+      by (destruct (Nat.ltb_spec a (off + idx)), (Nat.leb_spec (off + idx) a); auto; lia).
+    destruct (off + idx <=? a); reflexivity.
+  - inversion ND as [|? ? NI ND']; subst. cbn [dict_extract].
+    assert (CS : cnt kws (n :: ns) = (if hit kws n then 1 else 0) + cnt kws ns).
+    { unfold cnt. cbn [filter]. destruct (hit kws n); reflexivity. }
+    destruct (Nat.ltb_spec e nkw) as [LT|GE].
+    + unfold hit in CS. destruct (dict_get n kws) as [v|] eqn:G.
+      * specialize (IH (S idx) off (S e) (upd (off + idx) (Some v) values) ND' ltac:(lia)).
+        destruct (dict_extract kws nkw ns (S idx) off (S e) (upd (off + idx) (Some v) values)) as [values' e'].
+        destruct IH as [E [L P]]. rewrite upd_length in L. split; [lia|]. split; [exact L|].
+        intros a. rewrite P, upd_length, nth_upd. cbn [length].
+        destruct (Nat.eq_dec a (off + idx)) as [->|NE].
+        { replace (off + S idx <=? off + idx) with false by (symmetry; apply Nat.leb_gt; lia).
+          cbn [andb]. rewrite Nat.eqb_refl, Nat.leb_refl.
+          replace (off + idx <? off + idx + S (length ns)) with true by (symmetry; apply Nat.ltb_lt; lia).
+          cbn [andb]. replace (off + idx - off - idx) with 0 by lia. cbn [nth]. rewrite G.
+          destruct (off + idx <? length values); reflexivity. }
+        replace (a =? off + idx) with false by (symmetry; apply Nat.eqb_neq; exact NE). cbn [andb].
+        destruct (Nat.leb_spec (off + S idx) a) as [LE|GT].
+        { replace (off + idx <=? a) with true by (symmetry; apply Nat.leb_le; lia).
+          replace (a <? off + S idx + length ns) with (a <? off + idx + S (length ns))
+            by (destruct (Nat.ltb_spec a (off + S idx + length ns)), (Nat.ltb_spec a (off + idx + S (length ns))); auto; lia).
+          cbn [andb]. destruct (a <? off + idx + S (length ns)) eqn:Bd; [|reflexivity]. cbn [andb].
+          destruct (a <? length values); [|reflexivity].
+          replace (a - off - idx) with (S (a - off - S idx)) by lia. reflexivity. }
+        { replace (off + idx <=? a) with false by (symmetry; apply Nat.leb_gt; lia). reflexivity. }
+      * specialize (IH (S idx) off e values ND' ltac:(lia)).
+        destruct (dict_extract kws nkw ns (S idx) off e values) as [values' e'].
+        destruct IH as [E [L P]]. split; [lia|]. split; [exact L|].
+        intros a. rewrite P. cbn [length].
+        destruct (Nat.eq_dec a (off + idx)) as [->|NE].
+        { replace (off + S idx <=? off + idx) with false by (symmetry; apply Nat.leb_gt; lia).
+          cbn [andb]. rewrite Nat.leb_refl.
+          replace (off + idx <? off + idx + S (length ns)) with true by (symmetry; apply Nat.ltb_lt; lia).
+          cbn [andb]. replace (off + idx - off - idx) with 0 by lia. cbn [nth]. rewrite G.
+          destruct (off + idx <? length values); reflexivity. }
+        destruct (Nat.leb_spec (off + S idx) a) as [LE|GT].
+        { replace (off + idx <=? a) with true by (symmetry; apply Nat.leb_le; lia).
+          replace (a <? off + S idx + length ns) with (a <? off + idx + S (length ns))
+            by (destruct (Nat.ltb_spec a (off + S idx + length ns)), (Nat.ltb_spec a (off + idx + S (length ns))); auto; lia).
+          cbn [andb]. destruct (a <? off + idx + S (length ns)) eqn:Bd; [|reflexivity]. cbn [andb].
+          destruct (a <? length values); [|reflexivity].
+          replace (a - off - idx) with (S (a - off - S idx)) by lia. reflexivity. }
+        { replace (off + idx <=? a) with false by (symmetry; apply Nat.leb_gt; lia). reflexivity. }
+    + (* the counter reached the number of keywords: nothing further can match *)
+      assert (C0 : cnt kws (n :: ns) = 0) by lia.
+      split; [lia|]. split; [reflexivity|]. intros a.
+      destruct ((off + idx <=? a) && (a <? off + idx + length (n :: ns)) && (a <? length values)) eqn:C; [|reflexivity].
+      apply andb_true_iff in C as [C _]. apply andb_true_iff in C as [C1 C2].
+      apply Nat.leb_le in C1. apply Nat.ltb_lt in C2.
+      rewrite (cnt_zero_miss _ kws (n :: ns) _ C0); [reflexivity|]. apply nth_In. lia.
+Qed.
+
+Lemma knames_nodup : forall V (kws : list (key * V)), all_str kws -> keys_nodup kws = true ->
+  NoDup (map (fun kv => k_name (fst kv)) kws).
+Proof.
+  intros V kws; induction kws as [|[k v] r IH]; intros AS KN; [constructor|].
+  apply all_str_cons in AS as [S AS']. cbn [fst] in S.
+  cbn [keys_nodup] in KN. apply andb_true_iff in KN as [K1 K2]. apply negb_true_iff in K1.
+  cbn [map fst]. constructor; [|apply IH; assumption].
+  intros I. apply in_map_iff in I as [kv [E I]].
+  pose proof (existsb_false_In _ _ _ _ K1 I) as Q. cbn beta in Q.
+  unfold key_same in Q. rewrite S, (AS' kv I), E, Nat.eqb_refl in Q. discriminate.
+Qed.
+
+Lemma filter_length_lt : forall A (f : A -> bool) l x, In x l -> f x = false -> length (filter f l) < length l.
+Proof.
+  intros A f l; induction l as [|y r IH]; intros x I E; [contradiction|]. cbn [filter length].
+  pose proof (filter_length_le _ f r) as LE.
+  destruct I as [->|I].
+  - rewrite E. lia.
+  - specialize (IH x I E). destruct (f y); cbn [length]; lia.
+Qed.
+
+(* the counter of the extraction loop falls short of the number of keywords exactly when some
+   keyword matches no name at or after [first] *)
+Lemma extract_count : forall V (kws : list (key * V)) names first,
+  NoDup names -> all_str kws -> keys_nodup kws = true ->
+  (cnt kws (skipn first names) <? length kws) =
+  existsb (fun kv => negb (matched_from names first (fst kv))) kws.
+Proof.
+  intros V kws names first ND AS KN.
+  assert (NDs : NoDup (skipn first names)).
+  { rewrite <- (firstn_skipn first names) in ND. apply NoDup_app_r in ND. exact ND. }
+  destruct (existsb (fun kv => negb (matched_from names first (fst kv))) kws) eqn:X.
+  - apply Nat.ltb_lt. apply existsb_exists in X as [kv0 [I0 M0]]. apply negb_true_iff in M0.
+    apply Nat.le_lt_trans with (length (filter (fun kv => matched_from names first (fst kv)) kws));
+      [|apply (filter_length_lt _ _ _ kv0 I0 M0)].
+    rewrite <- (map_length (fun kv => k_name (fst kv))). unfold cnt.
+    apply NoDup_incl_length; [apply NoDup_filter; exact NDs|].
+    intros n I. apply filter_In in I as [I H]. unfold hit in H.
+    destruct (dict_get n kws) as [v|] eqn:G; [|discriminate].
+    destruct (dict_get_Some_In _ _ _ _ G) as [kv [Ik E]].
+    apply in_map_iff. exists kv. split; [apply key_eq_name in E as [E _]; exact E|].
+    apply filter_In. split; [exact Ik|]. rewrite <- existsb_skipn_midx by exact ND.
+    apply existsb_exists. exists n. split; assumption.
+  - apply Nat.ltb_ge. rewrite <- (map_length (fun kv => k_name (fst kv)) kws). unfold cnt.
+    apply NoDup_incl_length; [apply knames_nodup; assumption|].
+    intros n I. apply in_map_iff in I as [kv [E I]].
+    pose proof (existsb_false_In _ _ _ _ X I) as Q. cbn beta in Q. apply negb_false_iff in Q.
+    rewrite <- existsb_skipn_midx in Q by exact ND. apply existsb_exists in Q as [n' [I' E']].
+    assert (n' = n) by (apply key_eq_name in E' as [E' _]; congruence). subst n'.
+    apply filter_In. split; [exact I'|]. unfold hit.
+    pose proof (dict_get_In _ n kws kv I E') as NN. destruct (dict_get n kws); [reflexivity|congruence].
+Qed.
+
+Lemma unmatched_split : forall names first k,
+  negb (matched_from names first k) = kw_dup names first k || kw_unknown names k.
+Proof.
+  intros. unfold matched_from, kw_dup, kw_unknown. destruct (midx k names); [rewrite orb_false_r|]; reflexivity.
+Qed.
+
+Lemma existsb_unmatched_strict : forall V (kws : list (key * V)) names first,
+  existsb (fun kv => negb (matched_from names first (fst kv))) kws =
+  existsb (fun kv => kw_bad names first true (fst kv)) kws.
+Proof.
+  intros V kws names first; induction kws as [|kv r IH]; [reflexivity|]. cbn [existsb]. rewrite IH.
+  rewrite unmatched_split. unfold kw_bad. cbn [andb]. reflexivity.
+Qed.
+
+(* __Pyx_ParseKeywordDict (kwds dict convention, no **kwargs dict to fill) agrees with the reference loop *)
+Theorem parser_ok_dict_none : forall V (kws : list (key * V)) names first off ignore values,
+  NoDup names -> all_str kws -> keys_nodup kws = true -> first <= length names ->
+  sim (parse_keywords PDict kws names first off ignore values None)
+      (parse_ref kws names first off ignore values None).
+Proof.
+  intros V kws names first off ignore values ND AS KN FL.
+  cbn [parse_keywords]. unfold parse_dict. rewrite (all_str_nonstr _ _ AS).
+  assert (NDs : NoDup (skipn first names)).
+  { rewrite <- (firstn_skipn first names) in ND. apply NoDup_app_r in ND. exact ND. }
+  pose proof (dict_extract_spec V kws (length kws) (skipn first names) first off 0 values NDs
+                (cnt_le V kws _ NDs)) as S.
+  destruct (dict_extract kws (length kws) (skipn first names) first off 0 values) as [values' ex].
+  destruct S as [E [L P]]. cbn [Nat.add] in E. rewrite E.
+  rewrite (extract_count V kws names first ND AS KN).
+  rewrite (validate_dup_exact V kws names first ND).
+  pose proof (parse_ref_ok V kws names first off ignore values None ND AS KN ltac:(intros d [=])) as R.
+  cbn [strict_of] in R.
+  destruct (parse_ref kws names first off ignore values None) as [e|[vals' kw']].
+  - destruct R as [_ B]. destruct ignore; cbn [negb] in B.
+    + rewrite existsb_bad_lenient in B. rewrite B.
+      assert (U : existsb (fun kv => negb (matched_from names first (fst kv))) kws = true).
+      { apply existsb_exists in B as [kv [I Dp]]. apply existsb_exists. exists kv. split; [exact I|].
+        rewrite unmatched_split, Dp. reflexivity. }
+      rewrite U. cbn [sim]. discriminate.
+    + rewrite existsb_unmatched_strict, B. cbn [sim].
+      apply reject_unknown_blames; assumption.
+  - destruct R as [B [L' [P' K']]].
+    assert (EV : values' = vals').
+    { apply (nth_ext _ _ None None); [congruence|]. intros a _. rewrite P, P'. unfold ref_at.
+      rewrite skipn_length.
+      replace (off + first + (length names - first)) with (off + length names) by lia.
+      destruct ((off + first <=? a) && (a <? off + length names) && (a <? length values)) eqn:C; [|reflexivity].
+      apply andb_true_iff in C as [C _]. apply andb_true_iff in C as [C _]. apply Nat.leb_le in C.
+      rewrite nth_skipn. replace (first + (a - off - first)) with (a - off) by lia. reflexivity. }
+    cbn [option_map] in K'. subst kw' vals'.
+    destruct ignore; cbn [negb] in B.
+    + rewrite existsb_bad_lenient in B. rewrite B.
+      destruct (existsb (fun kv => negb (matched_from names first (fst kv))) kws); cbn [sim]; reflexivity.
+    + rewrite existsb_unmatched_strict, B. cbn [sim]. reflexivity.
+Qed.
+
+(* both dict loops: the obligation of Prop/C24.v is discharged *)
+Theorem parser_ok_dict : parser_ok PDict.
+Proof.
+  intros V kws names first off ignore values kw0 ND AS KN FL _ _ [->| ->].
+  - apply parser_ok_dict_none; assumption.
+  - apply parser_ok_dict2dict; assumption.
+Qed.
+
+Theorem parser_ok_all : forall pth, parser_ok pth.
+Proof.
+  intros pth. destruct pth; try (apply parser_ok_tuple; discriminate). apply parser_ok_dict.
+Qed.
+
+(* the full statement of C24 *)
+Theorem call_eq_full : forall V vc pth s (c : call V),
+  wf_sig s = true -> wf_path pth s = true -> wf_entry vc pth = true -> keys_nodup (c_kws c) = true ->
+  erase s (call_cy vc pth s c) = erase s (call_py s c).
+Proof.
+  intros V vc pth s c WS WP WE KN. apply call_eq_param; auto. intros _. apply parser_ok_all.
+Qed.
